@@ -355,6 +355,11 @@ fn one_pass<T: Sc, F: Factory<T>>(sc: &Scenario, rep: &mut RunReport, first: boo
         rep.probe("event_cap_hit");
     }
     rep.probe_n("faults_fired", ctl.fired());
+    for e in &log {
+        if e.fault.is_some() {
+            rep.probe(&format!("fault_{}", e.kind.class()));
+        }
+    }
     if compared > 0 && (had_other_alpha || had_failed_update) {
         rep.signatures = vec![format!("{:?}|{}|{}", F::KIND, sc.parallel, sig)];
     }
